@@ -98,9 +98,13 @@ def print_sheet(r, rules):
                 emit_free(x["close"])
         elif x["t"] == "declrun":
             # every declaration of the run is closed by its semicolon (a rule may follow)
-            for d in x["decls"]:
+            for i, d in enumerate(x["decls"]):
                 for t in list(d):
                     emit(t)
+                if x.get("last") and i == len(x["decls"]) - 1 and r.random() < 0.6:
+                    if r.random() < 0.5:
+                        out.add(spell_ws(r, False))
+                    continue  # (the closing brace of the group rule ends it)
                 semi = simple(";")
                 emit_free(semi)
                 d.append(semi)
